@@ -97,10 +97,139 @@ def r14b(ctx, P):
                "segment from stored fields only and silently drops this field class" % (l, consumed[l]), consumed[l])
 
 
+# Which (kind, flags) make the segment build write data that only the segment holds.  Read off write_segment_stream:
+#   text     -> postings (and the doc-length column) unless `!meta.indexed`                      [loop over collected.text]
+#   keyword  -> postings when `indexed`; a Str/StrList column when kind == Keyword && fast      [loop over collected.keywords]
+#   numeric  -> an I64/F64 column when `fast`; nothing else (`indexed` is constant true and unused) [loops over collected.i64s/f64s]
+#   unknown  -> never produced by Schema::resolved_fields; no bucket in CollectedDocument
+W_TABLE = {"Text": lambda indexed, fast: indexed, "Keyword": lambda indexed, fast: indexed or fast,
+           "Numeric": lambda indexed, fast: fast, "Unknown": lambda indexed, fast: False}
+# the builder-side reads of ResolvedField flags W_TABLE was read from: (function root, flag)
+#   nested   -> handle_field gates the text bucket on `indexed`; collect_nested_object writes per-object columns when `fast` and the
+#               kind is Keyword or Numeric (Text | Unknown => nothing): same table
+W_ANCHORS = {("SegmentWriter::<'a>::write_segment_stream", "indexed"), ("SegmentWriter::<'a>::write_segment_stream", "fast"),
+             ("handle_field", "indexed"), ("collect_nested_object", "fast")}
+
+
+def r14c(ctx, P):
+    rid = "R14.c"
+    from sa import boolpaths
+    ctx.rule(rid, "DECISION TABLE: the per-field decision of ensure_compact_safe is extracted by enumerating the paths of its loop body "
+                  "(branching only on ResolvedField.{indexed,fast,stored} and discr(kind), symbolic store for locals); for every "
+                  "kind and flag combination in which the segment build writes segment-only data (table W, read off "
+                  "write_segment_stream and anchored to its reads of the flags) and `stored` is false, every consistent path must "
+                  "end in the refusal. Conditions on anything else are treated as free")
+    f = P.fn(SAFE)
+    if not ctx.anchor(rid, f, "ensure_compact_safe"):
+        return
+    ctx.saw(f)
+    RF = "searchlite_core::index::manifest::ResolvedField"
+    kind_adt = P.adts.get("searchlite_core::index::manifest::FieldKind")
+    if not ctx.anchor(rid, kind_adt, "FieldKind"):
+        return
+    kinds = [v["name"] for v in kind_adt["variants"]]
+    unknown_kinds = [k for k in kinds if k not in W_TABLE]
+    ctx.ob(rid, "%s:kinds-covered" % rid, not unknown_kinds,
+           "table W covers every FieldKind variant %s" % kinds if not unknown_kinds else
+           "FieldKind has variant(s) %s that table W does not cover: decide what the segment build writes for them" % unknown_kinds,
+           "%s:%s" % (f.file, f.line))
+    # builder-side anchors: which functions under the build read ResolvedField.indexed / .fast
+    reads = set()
+    for q in {STREAM} | {x for x in P.reach(STREAM) if x in P.fns}:
+        g = P.fns[q]
+        if g.crate != "searchlite_core" or is_test_or_bench(g):
+            continue
+        root = g
+        while root.kind == "closure" and root.parent and P.fn(root.parent):
+            root = P.fn(root.parent)
+        for b, i, st in g.stmts():
+            if st["k"] != "assign":
+                continue
+            rv = st["rv"]
+            pl = rv.get("place") if rv["k"] in ("ref", "discr") else (op_place(rv["a"]) if rv["k"] in ("use", "cast") else None)
+            if pl:
+                for e in pl["p"]:
+                    if isinstance(e, dict) and e.get("of") == RF and e.get("f") in ("indexed", "fast"):
+                        reads.add((root.short.split("index::segment::")[-1], e["f"]))
+    ctx.ob(rid, "%s:builder-flag-reads" % rid, reads == W_ANCHORS,
+           "the segment build reads ResolvedField.indexed/.fast where table W was read from (%s)" % sorted(reads) if reads == W_ANCHORS else
+           "the segment build's reads of ResolvedField.indexed/.fast changed (%s, table W was read from %s): re-derive table W" % (
+               sorted(reads), sorted(W_ANCHORS)), "%s:%s" % (f.file, f.line))
+    # loop body of the guard
+    hdr = None
+    start = None
+    for b in sorted(f.reachable()):
+        t = f.blocks[b]["term"]
+        if t["k"] == "call" and callee_of(t).endswith("Iterator>::next") and any("ForLoop" in m for m in t.get("macros", [])) and \
+                RF in t.get("dst_ty", ""):
+            hdr = b
+        if t["k"] == "switch" and any("ForLoop" in m for m in t.get("macros", [])) and hdr is not None and start is None:
+            vals = dict(zip(t["values"], t["targets"]))
+            start = vals.get(1)
+    if not ctx.anchor(rid, start, "loop over Schema::resolved_fields() in ensure_compact_safe"):
+        return
+    from sa.rules.C15 import error_origins
+    refuse_blocks = {s.b for s in error_origins(f)}
+    hdr_chain = {hdr}
+    ch = True
+    while ch:
+        ch = False
+        for b in f.reachable():
+            t = f.blocks[b]["term"]
+            if b not in hdr_chain and t["k"] == "goto" and t["target"] in hdr_chain and not f.blocks[b]["stmts"]:
+                hdr_chain.add(b); ch = True
+
+    def end_kind(b):
+        if b in hdr_chain:
+            return "next"
+        if b in refuse_blocks:
+            return "refuse"
+        return None
+
+    def atom_of_place(pl):
+        fl = [e for e in pl["p"] if isinstance(e, dict) and "f" in e]
+        if len(fl) >= 1 and fl[-1].get("of") == RF and fl[-1]["f"] in ("indexed", "fast", "stored", "kind"):
+            return ("flag", fl[-1]["f"])
+        if fl:
+            return ("other", ".".join(e["f"] for e in fl))
+        return None
+    ps = boolpaths.paths(f, start, end_kind, atom_of_place, discr_variants=lambda a: kinds)
+    ctx.floor(rid, len(ps), 2, "paths through the guard's loop body")
+    n = 0
+    bad = []
+    for kind in kinds:
+        if kind not in W_TABLE:
+            continue
+        for indexed in (True, False):
+            for fast in (True, False):
+                if not W_TABLE[kind](indexed, fast):
+                    continue
+                n += 1
+                asg = {("flag", "indexed"): indexed, ("flag", "fast"): fast, ("flag", "stored"): False, ("discr", "kind"): kind}
+                ends = {}
+                for pth in ps:
+                    if all(asg.get(a, v) == v for a, v in pth.cons.items() if a in asg):
+                        ends.setdefault(pth.end[0], pth)
+                if set(ends) != {"refuse"}:
+                    other = [p_ for k_, p_ in ends.items() if k_ != "refuse"]
+                    bad.append((kind, indexed, fast, other[0] if other else None))
+    for kind, indexed, fast, pth in bad:
+        extra = {a: v for a, v in (pth.cons.items() if pth else []) if a[0] == "other"}
+        ctx.ob(rid, "%s:ensure_compact_safe:%s:indexed=%s:fast=%s" % (rid, kind, indexed, fast), False,
+               "an unstored %s field with indexed=%s fast=%s passes ensure_compact_safe%s, but the segment build writes data for it that "
+               "the stored document cannot reproduce: compaction silently drops it" % (
+                   kind, indexed, fast, " (when %s)" % extra if extra else ""), "%s:%s" % (f.file, f.line))
+    if not bad:
+        ctx.ob(rid, "%s:ensure_compact_safe:refuses-all-unrebuildable" % rid, True,
+               "all %d (kind, indexed, fast) combinations with segment-only data and stored=false end in the refusal (%d paths)" % (n, len(ps)),
+               "%s:%s" % (f.file, f.line))
+
+
 def run(ctx, progs):
     P = progs.get("default")
     r14a(ctx, P)
     r14b(ctx, P)
+    r14c(ctx, P)
     if ctx.tier == "thorough":
         ctx.config = "features"
         Pf = progs.get("features")
